@@ -593,6 +593,22 @@ pub fn fired_classes(n: &NetSpec, fired: &[bool]) -> (bool, bool) {
     (setup, data)
 }
 
+/// Time (us) of the last packet either side put on the wire that is not a HEARTBEAT / HEARTBEAT-ACK.
+pub fn last_activity_us(tr: &[Ev<SClass, SctpInfo>]) -> u64 {
+    tr.iter()
+        .filter(|e| e.phase == Phase::Captured && !matches!(e.class, SClass::Heartbeat | SClass::HeartbeatAck))
+        .map(|e| e.t_us)
+        .max()
+        .unwrap_or(0)
+}
+
+/// A stall is definitive (schedule-independent) when nothing but heartbeats has been put on the wire
+/// for `quiet` although the run went on: no retransmission timer can be pending any more (RTO max is
+/// 0.4 s in these rigs), so waiting longer or re-running under less load cannot change the verdict.
+pub fn quiescent_stall(r: &RunResult, quiet: Duration) -> bool {
+    r.end_us.saturating_sub(last_activity_us(&r.trace)) >= quiet.as_micros() as u64
+}
+
 pub fn describe_trace(tr: &[Ev<SClass, SctpInfo>], max: usize) -> String {
     let mut s = String::new();
     for e in tr.iter().take(max) {
